@@ -1,5 +1,5 @@
 from lib import flow
-from .pipecommon import CAT_ONEQ, prelude, ASSUME_PIPE
+from .pipecommon import CAT_ONEQ, CAT_2H, prelude, ASSUME_PIPE
 
 def P(tt, names):
     return {"tt": tt, "catalog": CAT_ONEQ, "prelude": prelude(names)}
@@ -16,6 +16,9 @@ C = dict(
         dict(module="PipeClock_MC", cfg="PipeClock_MC_RAB_asbuilt.cfg", workers=4),   # as built: floor of the collections started before the read
         dict(module="PipeClock_MC", cfg="PipeClock_MC_R3.cfg", workers=8, tiers=["thorough"]),
         dict(module="PipeClock_MC", cfg="PipeClock_MC_R3_asbuilt.cfg", workers=8, tiers=["thorough"]),
+        # two channel handlers (two source pchannels) on one downstream channel: the second one's InitTSInfo only raises the clock
+        dict(module="PipeClock_MC", cfg="PipeClock_MC_2H.cfg", workers=2),
+        dict(module="PipeClock_MC", cfg="PipeClock_MC_2H_asbuilt.cfg", workers=2),
     ],
     plan_sources=[
         dict(name="s1", module="PipeClock_MC", cfg="PipeClock_PlanS1.cfg", cap={"quick": 300}, params=P(1, ["c1", "c2"]), workers=8),
@@ -33,6 +36,8 @@ C = dict(
              cap={"quick": 100, "thorough": 3000}, params=P(1, [])),
         dict(name="r3", module="PipeClock_MC", cfg="PipeClock_PlanR3.cfg", simulate={"quick": 40, "thorough": 1500}, depth=200,
              cap={"quick": 100, "thorough": 3000}, params=P(1, [])),
+        dict(name="h2", module="PipeClock_MC", cfg="PipeClock_Plan2H.cfg", cap={"quick": 150, "thorough": 4000},
+             params={"tt": 1, "catalog": CAT_2H, "prelude": [], "src_n": 2, "tgt_n": 1}, workers=8),
     ],
     directed="plans/C03.jsonl",
     # the directed plans e2e-* run the whole server (driver ckpt: real MetaCDC, channel manager, writer, batcher) through
@@ -62,9 +67,9 @@ def run(tier, replay=None):
         from lib import vlib
         # negative controls of the resume model: a joining collection that does not lift the clock, and the as-built
         # start order against the strict floor, must both leave the contract
-        for cfg in ("PipeClock_MC_RAB_nojoin.cfg", "PipeClock_MC_RAB_asbuilt_strict.cfg"):
+        for cfg in ("PipeClock_MC_RAB_nojoin.cfg", "PipeClock_MC_RAB_asbuilt_strict.cfg", "PipeClock_MC_2H_assign.cfg"):
             r = vlib.run_tlc("PipeClock_MC", cfg, workers=4, timeout=300)
-            if "C03" not in r.violated:
+            if "C03" not in r.violated and "C03weak" not in r.violated:
                 raise vlib.Inconclusive("%s no longer violates C03: the resume part of the model is vacuous" % cfg)
             vlib.log("[tlc] PipeClock_MC/%s: violates C03 as expected" % cfg)
     return flow.standard_flow(C, tier, replay)
